@@ -144,10 +144,19 @@ def parse_cbmc(out):
     return props, info
 
 
-def extract_inputs(trace):
+def extract_inputs(trace, prop_id=None):
+    """ordered nondet_*() results from a CBMC text trace (assignments to verif_last_in); the value
+    is taken from the binary rendering because CBMC prints some constants symbolically (sizeof...)"""
+    if prop_id:
+        parts = re.split(r"^Trace for (\S+):\s*$", trace, flags=re.M)
+        # parts = [pre, id1, body1, id2, body2, ...]
+        for i in range(1, len(parts) - 1, 2):
+            if parts[i] == prop_id:
+                trace = parts[i + 1]
+                break
     vals = []
-    for m in re.finditer(r"^\s*verif_last_in=(\d+)ul", trace, re.M):
-        vals.append(int(m.group(1)))
+    for m in re.finditer(r"^\s*verif_last_in=.*\(([01 ]+)\)\s*$", trace, re.M):
+        vals.append(int(m.group(1).replace(" ", ""), 2))
     return vals
 
 
@@ -232,7 +241,7 @@ def validate_translation(ctx, ob, tcfg, cfile, entry, nvec, insts):
     exe_n = build_native(ctx, ob, tcfg)
     exe_c = cfile[:-2] + ".concrete"
     cmd = ["gcc", "-O1", "-w", "-I", os.path.join(ROOT, "models"), "-DVERIF_MAIN=verif_main_" + entry, cfile,
-           os.path.join(ROOT, "models", "models.c")] + [os.path.join(ROOT, "models", m) for m in ob.get("models", [])] + ["-o", exe_c, "-lm"]
+           os.path.join(ROOT, "models", "models.c")] + [os.path.join(ROOT, "models", m) for m in ob.get("models", [])] + ["-o", exe_c, "-lm", "-Wl,--unresolved-symbols=ignore-all"]
     rc, out, dt, to = run(cmd, timeout=600)
     if rc != 0:
         raise Inconclusive("gcc build of generated C failed for %s:\n%s" % (ob["id"], out[-3000:]))
@@ -335,9 +344,11 @@ def run_instance(ctx, ob, res, params):
         r["witness_reached"] = sorted({p["desc"] for p in wit if p["status"] == "FAILURE"})
         if unsup:
             raise Inconclusive("reachable construct not supported by ir2c in %s: %s" % (ob["id"], unsup[0]["desc"]))
-        if bnd:
+        # a violated property is reported (and replayed) even when a bound was also exceeded elsewhere:
+        # the counterexample lies inside the explored part; without one, an exceeded bound is inconclusive
+        if bnd and not bad:
             raise Inconclusive("bound too small in %s %s: %s" % (ob["id"], list(params), ", ".join(p["id"] + " " + p["desc"][:40] for p in bnd[:6])))
-        if not r["witness_reached"]:
+        if not r["witness_reached"] and not bad:
             raise Inconclusive("VACUOUS: no reachability witness reached in %s %s" % (ob["id"], list(params)))
         if bad:
             r["failed_properties"] = [dict(id=p["id"], desc=p["desc"], line=p["line"]) for p in bad[:10]]
@@ -352,7 +363,7 @@ def run_instance(ctx, ob, res, params):
             rc, tout, dt2, to = run(cmd2, timeout=timeout, limit_mem=True)
             if to:
                 raise Inconclusive("cbmc timeout while producing the trace for %s" % ob["id"])
-            inputs = extract_inputs(tout)
+            inputs = extract_inputs(tout, first["id"])
             exe = build_native(ctx, ob, tcfg)
             env = dict(os.environ, VERIF_PARAMS=",".join(str(x) for x in params))
             rcn, nout, _, ton = run([exe], timeout=60, stdin="\n".join(str(x) for x in inputs) + "\n", env=env)
